@@ -452,6 +452,12 @@ def gen_cases(tier, seed):
             cases.append(dict(kind='matrix', family='diagdom', n=n, k=k, perm=None))
             for pm in row_perms(n, tier):
                 cases.append(dict(kind='matrix', family='diagdom_permuted', n=n, k=k, perm=pm))
+    # --- nearly triangular: a healthy diagonal and non-zero but negligible entries below it (a pivot search that prefers them
+    #     to the diagonal destroys the solution)
+    for n in (2, 3, 4, 6):
+        for eps in (1e-20, 1e-12, 1e-8):
+            for k in (0, 1):
+                cases.append(dict(kind='matrix', family='near_triangular', n=n, k=k, eps=eps, perm=None))
     # --- collocation matrices
     plan = [(1, 2, 4), (2, 2, 4), (3, 2, 4)] if q else [(1, 3, 8), (2, 3, 8), (3, 3, 8), (4, 3, 4), (5, 3, 4)]
     for p, B, G in plan:
@@ -498,7 +504,12 @@ def run_case(case, ctx):
         if 'M' in case:
             M = [[float(x) for x in row] for row in case['M']]
         else:
-            base = diagdom(case['n'], case['k']) if case['family'].startswith('diagdom') else hilbert_plus(case['n'], case['c'])
+            if case['family'] == 'near_triangular':
+                n_, e_ = case['n'], case['eps']
+                base = [[(float(1 + (i + 2 * j + case['k']) % 3) if j > i else (float(1 + (i + case['k']) % 2) if i == j else e_ * (1 + (i + j) % 2)))
+                         for j in range(n_)] for i in range(n_)]
+            else:
+                base = diagdom(case['n'], case['k']) if case['family'].startswith('diagdom') else hilbert_plus(case['n'], case['c'])
             M = [list(base[i]) for i in case['perm']] if case.get('perm') else base
             if case.get('scale'):
                 # badly scaled but perfectly regular matrices (powers of two: the scaling itself is exact)
